@@ -16,12 +16,12 @@ CLANG_FLAGS = ['-std=c++20', '-I' + REPO + '/include', '-I' + REPO, '-I' + ROOT 
 class Job:
     def __init__(s, name, unit, entry, args=(), merge=(), reach=(), bounds='', engine='S', timeout=600, check_ub=True,
                  enum_cap=64, max_paths=200000, max_steps=5_000_000, kf=None, native=True, solver_timeout_ms=120000,
-                 expect_violation=None, extra_units=(), cbmc=None, defines=(), findings=(), redirect=None, snippets=None, stream_sink=False, must_reach=None):
+                 expect_violation=None, extra_units=(), cbmc=None, defines=(), findings=(), redirect=None, snippets=None, stream_sink=False, must_reach=None, lockset=None):
         s.name = name; s.unit = unit; s.entry = entry; s.args = list(args); s.merge = list(merge); s.reach = list(reach)
         s.bounds = bounds; s.engine = engine; s.timeout = timeout; s.check_ub = check_ub; s.enum_cap = enum_cap
         s.max_paths = max_paths; s.max_steps = max_steps; s.kf = dict(kf or {}); s.native = native
         s.solver_timeout_ms = solver_timeout_ms; s.expect_violation = expect_violation; s.extra_units = list(extra_units)
-        s.cbmc = cbmc; s.defines = list(defines); s.findings = list(findings); s.redirect = dict(redirect or {}); s.snippets = dict(snippets or {}); s.stream_sink = stream_sink; s.must_reach = dict(must_reach or {})
+        s.cbmc = cbmc; s.defines = list(defines); s.findings = list(findings); s.redirect = dict(redirect or {}); s.snippets = dict(snippets or {}); s.stream_sink = stream_sink; s.must_reach = dict(must_reach or {}); s.lockset = dict(lockset or {})
 
 def match_brace(src, i):
     """index of the '}' that closes the '{' at src[i], ignoring braces inside string / character literals and comments"""
@@ -155,6 +155,26 @@ def run_job_S(job, lls):
                     names = samples[0]['model'] if samples else []
                     res['status'] = 'violation'
                     res.setdefault('violations', []).append({'kind': 'universal', 'msg': msg + ' (no input within the bounds reaches "%s")' % tag, 'model': names, 'stack': [], 'tag': tag})
+        # lock discipline (C36): for every watched member and every pair of thread roles that can run concurrently, all accesses must share
+        # a mutex when at least one of them writes. The log is the union over ALL explored paths (every feasible path of every role).
+        if job.lockset and res['status'] == 'pass' and not budget_hit:
+            log = E.lockset_log
+            res['locksets'] = [{'role': c, 'member': m, 'access': rw, 'held': sorted(sorted(h) for h in hs)} for (c, m, rw), hs in sorted(log.items())]
+            roles = sorted({c for c, _, _ in log}); multi = set(job.lockset.get('multi', []))
+            serial = [set(g) for g in job.lockset.get('serialised', [])]       # roles that never run concurrently with each other
+            for m in sorted({m for _, m, _ in log}):
+                for i, c1 in enumerate(roles):
+                    for c2 in roles[i:]:
+                        if c1 == c2 and c1 not in multi: continue
+                        if any(c1 in g and c2 in g for g in serial) and c1 != c2: continue
+                        a1 = [(rw, h) for (c, mm, rw), hs in log.items() if c == c1 and mm == m for h in hs]
+                        a2 = [(rw, h) for (c, mm, rw), hs in log.items() if c == c2 and mm == m for h in hs]
+                        bad = [(x, y) for x in a1 for y in a2 if ('w' in (x[0], y[0])) and not (x[1] & y[1])]
+                        if bad:
+                            x, y = bad[0]
+                            res['status'] = 'violation'
+                            res.setdefault('violations', []).append({'kind': 'race', 'member': m, 'model': [], 'stack': [],
+                                'msg': '%s: %s (%s, holding %s) and %s (%s, holding %s) share no mutex' % (m, c1, 'write' if x[0] == 'w' else 'read', sorted(x[1]) or 'nothing', c2, 'write' if y[0] == 'w' else 'read', sorted(y[1]) or 'nothing')})
         missing = [t for t in job.reach if t not in E.reach_count]
         if missing and res['status'] == 'pass':
             res['status'] = 'inconclusive'; res['error'] = 'vacuity: reach tags never reached: ' + ','.join(missing)
@@ -180,11 +200,11 @@ def native_libs(unit):
         if ln.startswith('// NATIVE-LIBS:'): return ln.split(':', 1)[1].split()
     return []
 
-def native_build(unit, wd, defines=()):
-    tag = hashlib.sha1((unit + ' '.join(defines)).encode()).hexdigest()[:10]
+def native_build(unit, wd, defines=(), san='address,undefined'):
+    tag = hashlib.sha1((unit + ' '.join(defines) + san).encode()).hexdigest()[:10]
     out = os.path.join(wd, 'replay_' + os.path.basename(unit).replace('.cpp', '') + '.' + tag)
     if os.path.exists(out): return out
-    cmd = ['g++', '-std=c++20', '-O0', '-g', '-fsanitize=address,undefined', '-fno-sanitize-recover=undefined', '-rdynamic', '-w',
+    cmd = ['g++', '-std=c++20', '-O0', '-g', '-fsanitize=' + san] + (['-fno-sanitize-recover=undefined'] if 'undefined' in san else []) + ['-rdynamic', '-w',
            '-I' + REPO + '/include', '-I' + REPO, '-I' + ROOT + '/harness/include', '-I' + ROOT + '/harness', '-DVERIF_NATIVE=1',
            '-DVERIF_REPO="' + REPO + '"'] + ['-D' + d for d in defines] + \
           [os.path.join(ROOT, 'harness', unit), os.path.join(ROOT, 'harness/rt/verif_rt.cpp'), '-o', out, '-ldl', '-lpthread'] + native_libs(unit)
@@ -358,6 +378,7 @@ def check(pid, tier, seed, wd, only, t0):
             results.append(r)
             if os.environ.get('VERIF_VERBOSE'):
                 print('[%s] %s %s paths=%s wall=%ss %s' % (pid, r['job'], r['status'], r.get('paths'), r.get('wall_s'), r.get('error', '')), flush=True)
+                for ls in r.get('locksets', []): print('    lockset %s %s %s held=%s' % (ls['role'], ls['member'], ls['access'], ls['held']), flush=True)
     results.sort(key=lambda r: r['job'])
     # triage
     violations = []; known_hits = []; inconclusive = []; unconfirmed = []
@@ -376,7 +397,21 @@ def check(pid, tier, seed, wd, only, t0):
         if r['status'] == 'violation':
             for n, v in enumerate(r['violations'][:5]):
                 nr = None; conf = None
-                if j.engine == 'S' and j.native and v.get('model') is not None:
+                if v['kind'] == 'race':
+                    fid_r = (j.lockset.get('known') or {}).get(v.get('member'))
+                    if fid_r in known_ids:
+                        known_hits.append((fid_r, r)); continue
+                    if j.lockset.get('tsan_entry'):
+                        b = native_build(j.unit, wd, j.defines, san='thread')
+                        if b:
+                            env = dict(os.environ, TSAN_OPTIONS='halt_on_error=0 report_signal_unsafe=0')
+                            try:
+                                pr = subprocess.run([b, j.lockset['tsan_entry'], '/dev/null', '0'], capture_output=True, text=True, timeout=300, env=env, errors='replace')
+                                nr = {'rc': pr.returncode, 'out': pr.stdout[-500:], 'err': pr.stderr[:3000], 'data_races': pr.stderr.count('WARNING: ThreadSanitizer: data race')}
+                                conf = nr['data_races'] > 0
+                            except subprocess.TimeoutExpired:
+                                nr = {'rc': 'timeout', 'out': '', 'err': ''}; conf = None
+                elif j.engine == 'S' and j.native and v.get('model') is not None:
                     b = native_build(j.unit, wd, j.defines)
                     if b:
                         if v['kind'] == 'universal':
